@@ -1,7 +1,7 @@
 SPECIFICATION GSpec
 CONSTANTS Configs <- FlagConfigs OptNames <- FlagNames SecNames <- FlagSecNames Values <- QV
           Decos <- QD MaxNodes = 1 MaxDepth = 1
-          FrontEnds = {"parsenode", "nodeparse", "cxx"} LoadAccs <- FlagAccsQ Pres = {1} MaxLoads = 1 MaxFail = 0 MaxAside = 0
+          FrontEnds = {"nodeparse", "cxx"} LoadAccs <- FlagAccsQ Pres = {1} MaxLoads = 1 MaxFail = 0 MaxAside = 0
           XNames = {} XValues = {} XDecos = {}
 INVARIANT CasesInv
 CHECK_DEADLOCK FALSE
